@@ -50,7 +50,7 @@ def cover(ctx, res, what):
 
 
 def run(ctx):
-    res = encpipe.run(ctx, QUICK if ctx.quick else THOROUGH, dump_every=3)
+    res = encpipe.run(ctx, QUICK if ctx.quick else THOROUGH, dump_every=3 if ctx.quick else 10)
     # C04's verdict: read-back through the library (direct and through every serialisation path) and
     # the value TLC decodes from the real bytes
     report(ctx, res, want_go=True, want_tlc=False)
